@@ -10,6 +10,7 @@
 //!       lists the public items (structs, enums, traits, type aliases) per file -- used to check
 //!       that every declared type is exposed under its package module.
 mod attrs;
+mod drive;
 
 use std::panic;
 use std::path::PathBuf;
@@ -21,6 +22,7 @@ fn main() {
         Some("attrs") => attrs::attrs(&PathBuf::from(&args[2])),
         Some("items") => attrs::items(&PathBuf::from(&args[2])),
         Some("safe-batch") => safe_batch(&args[2..]),
+        Some("drive") => drive::drive(&PathBuf::from(&args[2])),
         _ => {
             eprintln!("usage: genrun gen|attrs|items ...");
             std::process::exit(2);
